@@ -13,6 +13,29 @@ SB = 'pexpect.spawnbase.SpawnBase'
 RUN = 'pexpect.run.run'
 
 
+def interp_false():
+    from pyvc.values import VBool
+    return VBool(False)
+
+
+def truthy(x):
+    """python truthiness of an opaque callback result (symbolic: the engine's own predicate)"""
+    if is_sym(x):
+        import z3
+        from pyvc.spec import Val
+        return z3.Function('truthy', Val, z3.BoolSort())(x)
+    return bool(x)
+
+
+def is_string_val(x, mode):
+    if is_sym(x) and str(x.sort()) == 'Val':
+        import z3
+        from pyvc.spec import Val
+        names = ['isinstance_bytes', 'isinstance_str'] if mode == 'b' else ['isinstance_str']
+        return Or(*[z3.Function(n, Val, z3.BoolSort())(x) for n in names])
+    return is_sym(x) or isinstance(x, (str, bytes))
+
+
 class SpawnInitOracle(Contract):
     name = PTY + '.__init__'
     only_in = 'run'
@@ -29,7 +52,8 @@ class SpawnInitOracle(Contract):
         h.closed = False
         st = VClass('bytes' if k == 'b' else 'str')
         h.fields.update(string_type=st, allowed_string_types=VTuple([VClass('bytes'), VClass('str')]) if k == 'b' else VTuple([VClass('str')]),
-                        before=VNone(), after=VNone(), exitstatus=VNone(), timeout=v.args_v['timeout'])
+                        before=VNone(), after=VNone(), exitstatus=VNone(), signalstatus=VNone(), status=VNone(),
+                        terminated=interp_false(), timeout=v.args_v['timeout'])
         v.g['spawned'] = v.g.get('spawned', 0) + 1
         v.g['spawn.timeout'] = v.old.timeout
         v.g['spawn.command'] = v.old.command
@@ -63,6 +87,9 @@ class RunExpectOracle(Contract):
             outs.append(Raises('TIMEOUT'))
         return outs
 
+    def requires(self, v):
+        return [('C12:no-more-waiting-after-a-callback-asked-to-stop', Not(v.g['stop_requested']))]
+
     def modifies(self, v, out):
         sp = v.old.self
         k = v.g['mode']
@@ -81,6 +108,7 @@ class RunExpectOracle(Contract):
         new = v.new.self
         lab = v.label
         g['nexpect'] = g['nexpect'] + 1
+        g['last_index'] = int(lab.rsplit('-', 1)[1]) if '-' in lab else None
         if lab.startswith('text'):
             g['pend'] = v.draw(TStr(k), 'pend')
             g['consumed'] = cat(g['consumed'], new.before, new.after)
@@ -108,6 +136,17 @@ class RunSendOracle(Contract):
     def outcomes(self, v):
         return [Ret(T.Int)]
 
+    def requires(self, v):
+        g = v.g
+        k = g['last_index']
+        resp = g['responses']
+        if k is None or resp is None or k >= len(resp):
+            return [('C12:sends-only-in-answer-to-an-event', False)]
+        r = resp[k]
+        if hasattr(r, '_oid'):         # a callback: what is sent is the string it returned
+            return [('C12:sends-the-string-the-callback-returned', same(v.a.s, g['last_cb_result']))]
+        return [('C12:sends-the-response-paired-with-the-matched-event', same(v.a.s, r))]
+
     def effects(self, v):
         v.g['nsend'] = v.g['nsend'] + 1
         v.g['last_sent'] = v.old.s
@@ -120,14 +159,17 @@ class RunCloseOracle(Contract):
     defaults = {'force': True}
 
     def modifies(self, v, out):
-        return [(v.old.self, 'exitstatus', TOpt(T.Int))]
+        return [(v.old.self, 'exitstatus', TOpt(T.Int)), (v.old.self, 'signalstatus', TOpt(T.Int))]
 
     def effects(self, v):
         v.g['closed'] = v.g.get('closed', 0) + 1
 
     def ensures(self, v):
-        # C09/C10 contract of close(): the child is dead and reaped and its real exit code is recorded
-        return [('status', eq(v.new.self.exitstatus, v.g['fate_exit']))]
+        # C09/C10 contract of close(): the child is dead and reaped; exactly one of exit code / signal is recorded
+        new = v.new.self
+        return [('status', And(eq(new.exitstatus, v.g['fate_exit']), eq(new.signalstatus, v.g['fate_sig']))),
+                ('exactly-one', Not(Iff(is_none(v.g['fate_exit']), is_none(v.g['fate_sig'])))),
+                ('signal-is-positive', Implies(Not(is_none(v.g['fate_sig'])), some(v.g['fate_sig']) >= 1))]
 
 
 class Callback(Contract):
@@ -138,10 +180,19 @@ class Callback(Contract):
     def outcomes(self, v):
         return [Ret(T.Any)]
 
+    def requires(self, v):
+        g = v.g
+        k = g['last_index']
+        resp = g['responses']
+        ok = k is not None and resp is not None and k < len(resp) and hasattr(resp[k], '_oid') and resp[k] == v.a.f
+        return [('C12:calls-the-callback-paired-with-the-matched-event', ok),
+                ('C12:callback-receives-the-state-dictionary', hasattr(v.args_v.get('state'), 'oid'))]
+
     def effects(self, v):
-        v.g['ncb'] = v.g['ncb'] + 1
-        v.g['last_cb'] = v.old.f
-        v.g['last_cb_state_is_locals'] = hasattr(v.args_v.get('state'), 'oid')
+        g = v.g
+        g['ncb'] = g['ncb'] + 1
+        g['last_cb_result'] = v.result
+        g['stop_requested'] = And(Not(is_string_val(v.result, g['mode'])), truthy(v.result))
 
 
 class RunLoop(LoopSpec):
@@ -160,6 +211,7 @@ class RunLoop(LoopSpec):
     def invariant(self, v):
         lst = v.l.child_result_list
         return [('C12:collected-is-what-was-consumed', eq(list_join('', lst), v.g['consumed'])),
+                ('no-stop-pending', Not(v.g['stop_requested'])),
                 ('accounting', eq(cat(v.g['consumed'], v.g['pend']), v.g['R'])),
                 ('C12:one-response-per-event', And(eq(v.l.event_count, v.g['nexpect']), v.l.event_count >= 0,
                                                    v.g['nsend'] + v.g['ncb'] >= v.g['nexpect'],
@@ -176,9 +228,12 @@ class Run(Contract):
     def shape(self, b):
         mode = b.choice('mode', ['b', 's'])
         b.ghost('mode', mode)
-        for g, val in (('R', ''), ('consumed', ''), ('pend', ''), ('nexpect', 0), ('nsend', 0), ('ncb', 0)):
+        for g, val in (('R', ''), ('consumed', ''), ('pend', ''), ('nexpect', 0), ('nsend', 0), ('ncb', 0),
+                       ('stop_requested', False), ('last_index', None), ('last_cb_result', None)):
             b.ghost(g, val)
-        b.ghost('fate_exit', b.ctx.fresh(TOpt(T.Int), 'fate_exit') if hasattr(b, 'ctx') else None)
+        from pyvc.engine import to_spec as _ts
+        b.ghost('fate_exit', _ts(b.ctx, b.ctx.heap, b.ctx.fresh(TOpt(T.Int), 'fate_exit')) if hasattr(b, 'ctx') else None)
+        b.ghost('fate_sig', _ts(b.ctx, b.ctx.heap, b.ctx.fresh(TOpt(T.Int), 'fate_sig')) if hasattr(b, 'ctx') else None)
         ev = b.choice('events', ['none', 'list1', 'list2', 'dict1'])
 
         def pattern(i):
@@ -198,6 +253,15 @@ class Run(Contract):
             events = b.dict([pattern(0)], [response(0)])
         else:
             events = b.list([b.tuple(pattern(i), response(i)) for i in range(int(ev[-1]))])
+        from pyvc.engine import to_spec
+        if hasattr(b, 'ctx'):
+            if ev == 'none':
+                resp = None
+            elif ev == 'dict1':
+                resp = [to_spec(b.ctx, b.ctx.heap, x) for x in b.ctx.heap[events.oid].fields['vals']]
+            else:
+                resp = [to_spec(b.ctx, b.ctx.heap, x.items[1]) for x in b.ctx.heap[events.oid].fields['items']]
+            b.ghost('responses', resp)
         t = b.choice('timeout', ['default', 'some'])
         return dict(command=b.str('command', 's'), timeout=b.const(-1) if t == 'default' else b.real('timeout'),
                     withexitstatus=b.const(b.choice('withexitstatus', [False, True])), events=events,
@@ -226,7 +290,7 @@ class Run(Contract):
                     Or(eq(text, g['consumed']), eq(text, cat(g['consumed'], g['pend'])))))
         out.append(('C12:nothing-dropped-at-eof-or-timeout', Implies(Not(eq(text, g['consumed'])), eq(text, g['R']))))
         if wes:
-            out += [('C12:true-exit-status', eq(res[1], g['fate_exit'])), ('C12:closed-before-reporting', eq(g.get('closed', 0), 1))]
+            out += [('C09+C12:true-exit-status', eq(res[1], g['fate_exit'])), ('C12:closed-before-reporting', eq(g.get('closed', 0), 1))]
         return out
 
 
